@@ -8,6 +8,7 @@
      [k |-> "serve"]                                the simulator answered one STATU
      [k |-> "drop"|"dup", m |-> msg]                network fault chosen by the harness
      [k |-> "deliver", m |-> msg]                   a STATV was handed to the client
+     [k |-> "late", m]  a segment delivered after the transfer returned;  [k |-> "final", ok, cli, blen, sent]
      [k |-> "ret", ok |-> BOOLEAN, cli |-> <<class per byte>>, blen |-> n]
    msg = [t |-> "U"] or [t |-> "V", idx, next, off, len] as decoded from the datagram.
    Client timeouts are not logged: the silent Timeout action is inferred, allowed only
@@ -43,7 +44,18 @@ TSendRetx == /\ More /\ E.k = "send" /\ Variant = "sync" /\ pc = "wait"
 TServe   == More /\ E.k = "serve" /\ SpaServe /\ A("SpaServe", U) /\ Step
 TDrop    == More /\ E.k = "drop" /\ Known(E.m) /\ Drop(E.m) /\ A("Drop", E.m) /\ Step
 TDup     == More /\ E.k = "dup"  /\ Known(E.m) /\ Dup(E.m) /\ A("Dup", E.m) /\ Step
-TDeliver == More /\ E.k = "deliver" /\ Known(E.m) /\ Deliver(E.m) /\ A("Deliver", E.m) /\ Step
+\* (two datagrams handed to the socket back to back: the second may find the transfer finished by the first)
+TDeliver == /\ More /\ E.k = "deliver" /\ Known(E.m)
+            /\ \/ (Deliver(E.m) /\ A("Deliver", E.m))
+               \/ (LateDeliver(E.m) /\ A("LateDeliver", E.m))
+            /\ Step
+TLate    == More /\ E.k = "late" /\ Known(E.m) /\ LateDeliver(E.m) /\ A("LateDeliver", E.m) /\ Step
+\* after the stragglers: nothing was sent, nothing changed
+TFinal   == /\ More /\ E.k = "final" /\ pc = "done"
+            /\ E.ok = (result = "ok") /\ wire = sent /\ E.sent = sent
+            /\ E.blen = N /\ ~grown
+            /\ \A p \in Pos : E.cli[p + 1] = cli[p]
+            /\ UNCHANGED core /\ A("Final", U) /\ Step
 TTimeout == /\ More /\ E.k \in {"send", "ret"} /\ act.a # "Timeout"
             /\ Timeout /\ A("Timeout", U) /\ UNCHANGED <<tid, l, wire>>
 TRet     == /\ More /\ E.k = "ret" /\ pc = "done"
@@ -52,7 +64,7 @@ TRet     == /\ More /\ E.k = "ret" /\ pc = "done"
             /\ \A p \in Pos : E.cli[p + 1] = cli[p]
             /\ UNCHANGED core /\ A("Ret", U) /\ Step
 
-TNext == TSend \/ TSendRetx \/ TServe \/ TDrop \/ TDup \/ TDeliver \/ TTimeout \/ TRet
+TNext == TSend \/ TSendRetx \/ TServe \/ TDrop \/ TDup \/ TDeliver \/ TLate \/ TFinal \/ TTimeout \/ TRet
 TSpec == TInit /\ [][TNext]_tvars
 
 \* the design invariants are evaluated on every state of every accepted prefix
